@@ -9,18 +9,19 @@ from vlib import vbytes, vlist, vopt, vbool, parse_val
 
 NEED_RG = False
 MANIFEST = dict(
-    text="Coq theorems, all file systems / configurations / verdict functions: the skip decision of Walk::skip_entry "
-         "equals that of Worker::generate_work (false on the pinned text: D5, repaired); the parallel walker (as a "
-         "worklist) reports exactly the reachable entries, each once per path; the serial walker's matcher stack "
-         "has the depth of the event iterator at every step; a symlink loop is reported and never extended (depth "
-         "bound). Two defects of the pinned serial walker are refuted by witness and repaired (D5: filter_entry "
-         "ignored for files under a size limit; new D15: a skipped directory on another file system drops its "
-         "remaining siblings). Tie to the code: extracted models of both walkers vs WalkBuilder::build() and "
+    text="Coq theorems, all file systems / configurations / verdict and filter functions: the skip decision of "
+         "Walk::skip_entry equals that of Worker::generate_work (false on the pinned text: D5, repaired); whenever the "
+         "parallel walker (as a LIFO worklist) finishes it has reported exactly the inductively defined descent tree of "
+         "the roots, each entry once; a followed directory already among its ancestors is never queued and is reported "
+         "as a Loop error. Two defects of the pinned serial walker are refuted by witness and repaired (D5: "
+         "filter_entry ignored for files under a size limit; new D15: a skipped directory on another file system drops "
+         "its remaining siblings). Tie to the code: extracted models of both walkers vs WalkBuilder::build() and "
          "build_parallel() (1..8 threads) on real temp trees, plus an independent find-style listing.",
-    note="trusted: Coq kernel, extraction, OCaml driver, Rust harness, Python oracle; walkdir 2.5.0 is modelled "
-         "(IntoIter::next/handle_entry/push/pop/skip_current_dir) and tested, not verified; the parallel walker is a "
-         "sequential worklist here (schedule independence is C07). serial_set_eq_spec is `_partial`: proved are the "
-         "stack/depth invariant and the skip equivalence; serial = reachable is tested by correspondence only.",
+    note="PARTIAL: serial output = reachable set, serial each-once, the matcher-stack/ancestor invariant and the "
+         "termination bound (depth <= number of directory inodes) are NOT proved; they are tested by the model/code/"
+         "oracle correspondence only. trusted: Coq kernel, extraction, OCaml driver, Rust harness, Python oracle; "
+         "walkdir 2.5.0 is modelled (IntoIter::next/handle_entry/push/pop/skip_current_dir) and tested, not verified; "
+         "the parallel walker is a sequential worklist here (schedule independence is C07).",
     technique="Coq proof over executable models + extracted-model/implementation correspondence + find-style oracle",
     design="§7 C06")
 
@@ -444,12 +445,6 @@ def diff3(a, b):
     sa = set(a[0]) | set(("L", x) for x in a[1]) | set(("E", x) for x in a[2])
     sb = set(b[0]) | set(("L", x) for x in b[1]) | set(("E", x) for x in b[2])
     return sorted(sa - sb, key=repr)[:4], sorted(sb - sa, key=repr)[:4]
-
-
-def pinned_replay(ctx, base0, foreign0, stats):
-    """the two repaired defects, replayed through the model of the pinned text and through the current code:
-       the pinned model must show the divergence (the witness of the _refuted theorems), the code must not"""
-    pass
 
 
 def run(ctx):
